@@ -52,9 +52,11 @@ SetOf(s) == {s[i] : i \in 1..Len(s)}
 Orders(S) == UNION {{s \in [1..n -> S] : \A i, j \in 1..n : i # j => s[i] # s[j]} : n \in 1..Cardinality(S)}
 
 \* named values for the configuration files
-ListsQuick == {<<"C", "P">>, <<"P">>}
+ListsQuick == {<<"P", "C">>, <<"P">>}   \* the first listed method is one the peer cannot complete
 ListsTwo   == Orders({"C", "P"})
 ListsAll   == Orders({"C", "P", "K"})
+\* thorough tier: every order of every subset of {C, P}, and lists with a third method
+ListsEight == ListsTwo \cup {<<"K">>, <<"C", "K">>, <<"K", "C">>, <<"P", "C", "K">>}
 
 Conflict(a, b) == (a = "REQUIRED" /\ b = "NEVER") \/ (a = "NEVER" /\ b = "REQUIRED")
 Want(a, b, avail) == IF a = "REQUIRED" \/ b = "REQUIRED" THEN TRUE
@@ -352,11 +354,13 @@ PeerResumeRequest(d) ==
   /\ UNCHANGED <<cfg, denied, ansAuth, pAuth, pEnc, keyMat, cipherOK, offered, sel, ran, keyE,
                  postAuth, postDenied, policyAuth, encClaim, outcome>>
 
-\* E re-installs the cached key if the session has one.
+\* E re-installs the cached key if the session has one.  The statement demands
+\* it only under REQUIRED encryption / integrity (whether every keyed session
+\* must come back protected is C06's business), so E may also leave it out.
 ResumeInstall ==
   /\ phase \in {"c_reskey", "s_resume"}
   /\ ~denied
-  /\ keyE' = cfg.sess.keyed
+  /\ \E k \in BOOLEAN : (k => cfg.sess.keyed) /\ (EncReq(cfg) => k) /\ keyE' = k
   /\ encClaim' = ("ResumeFlagWithoutKey" \in Bug /\ ~cfg.sess.keyed)
   /\ SuccessResumed(keyE', encClaim')
   /\ UNCHANGED <<cfg, devs, denied, ansAuth, pAuth, pEnc, keyMat, cipherOK, offered, sel, ran,
